@@ -17,6 +17,7 @@ import (
 
 type H struct {
 	vals     map[string]uint64
+	params   map[string]int
 	counts   map[string]int
 	Failed   []string
 	Observed []string
@@ -26,6 +27,9 @@ type H struct {
 
 type Record struct {
 	Harness string            `json:"harness"`
+	Pkg     string            `json:"pkg"`
+	Func    string            `json:"func"`
+	Params  map[string]int    `json:"params"`
 	Model   map[string]uint64 `json:"model"`
 	Order   []string          `json:"order"`
 	Kind    string            `json:"kind"`
@@ -42,7 +46,7 @@ func NewReplay(path string) (*H, *Record, error) {
 	if err := json.Unmarshal(b, r); err != nil {
 		return nil, nil, err
 	}
-	return &H{vals: r.Model, counts: map[string]int{}}, r, nil
+	return &H{vals: r.Model, params: r.Params, counts: map[string]int{}}, r, nil
 }
 
 func NewFromModel(m map[string]uint64) *H { return &H{vals: m, counts: map[string]int{}} }
@@ -66,6 +70,20 @@ func (h *H) draw(name string) uint64 {
 	}
 	return v
 }
+
+// Param returns a bound configured per tier by the check driver.
+func (h *H) Param(name string, def int) int {
+	if v, ok := h.params[name]; ok {
+		return v
+	}
+	return def
+}
+
+// Known marks the paths on which cond holds as belonging to the known
+// finding id: a violation reported later on such a path is printed as
+// KNOWN-FINDING (if id is listed in known_findings.json) instead of
+// VIOLATION. It returns cond.
+func (h *H) Known(id string, cond bool) bool { return cond }
 
 // Symbolic reports whether the harness runs under gosx.
 func (h *H) Symbolic() bool { return false }
